@@ -71,6 +71,22 @@ def run(ctx):
         elif len(r) >= 5 and r[1] == "SITE":
             sites.append(r)
     rejects = [r for r in rows if len(r) >= 3 and r[1] == "REJECT"]
+    # lowering's classification of bare-identifier patterns against the language's rule (harness/src/patrule.rs):
+    # judged on the syntax node and the file's declarations alone — no typer, no model
+    n_patclass = 0
+    for r in rows:
+        if len(r) >= 7 and r[1] == "PATCLASS":
+            n_patclass += 1
+            kind, name, offset, line, func = r[2], r[3], r[4], r[5], r[6]
+            prog = r[0]
+            what = ("a bare identifier in pattern position that is a constructor of the file is lowered as a variable binder (a catch-all arm)"
+                    if kind == "constructor-pattern-lowered-as-binder" else
+                    "a bare identifier in pattern position that is no constructor of the file is lowered as a constructor pattern")
+            ctx.report({"oracle": "pattern-classification", "kind": kind},
+                       f"{what}: `{name}` in {func}, line {line}",
+                       {"id": prog, "src": srcs.get(prog), "site": "", "name": name, "offset": int(offset), "line": int(line), "function": func,
+                        "rule": "one identifier not followed by `::`, `(`, `{` is a nullary constructor pattern iff it is a variant of an enum / the name of a struct "
+                                "declared in the same file, whatever local binders are in scope (DESIGN.md 9.2)"})
     n_eq = n_diag = n_panic = n_vals = n_orc_ok = n_hyp_bad = 0
     n_unwitnessed = n_written = n_elab = 0
     distinct, streams, samples = set(), {}, []
@@ -135,13 +151,30 @@ def run(ctx):
         d = progs.setdefault(r[0], {"stages": {}})
         if r[1] == "SRC":
             d["src"] = vlib.unesc(r[2])
+        elif r[1] == "EXPECT":
+            d["expect"] = vlib.unesc(r[3]) if len(r) > 3 and r[2] == "out" else None
         elif r[1] == "STAGE":
             d["stages"][r[2]] = r[3]
         elif r[1] in ("REJECT", "PANIC"):
             d["rejected"] = r[2] + " " + (r[3] if len(r) > 3 else "")
+            if r[1] == "REJECT" and len(r) > 4:
+                d["src"] = vlib.unesc(r[4])
     progs = C01.evaluate(ctx, progs)
     n_pipe = n_pipe_agree = n_pipe_lines = n_pipe_missing = n_pipe_rej = 0
+    n_exp = n_exp_ok = 0
+    patpos_cells = {}
     for pid, d in progs.items():
+        if pid.startswith("patpos:"):
+            for k, part in zip(("spelling", "binder", "local-type", "pattern-position"), pid.split(":")[1:5]):
+                patpos_cells[f"{k}:{part}"] = patpos_cells.get(f"{k}:{part}", 0) + 1
+        if not d["stages"] and pid.startswith("patpos:"):
+            # harness/src/patpos.rs: well-typed by construction when every bare constructor name in pattern
+            # position tests the constructor and every use in an arm body means the innermost local binder
+            n_pipe_rej += 1
+            ctx.report({"oracle": "accept", "kind": "well-typed-by-construction-program-rejected"},
+                       "a program whose patterns name constructors of the file while a local binder of the same spelling is in scope is rejected: " + d.get("rejected", "")[:200],
+                       {"id": pid, "src": d.get("src"), "site": "", "diagnostics": d.get("rejected", "")[:600]})
+            continue
         if not d["stages"]:
             n_pipe_rej += 1
             if "non-exhaustive match on integer literal" not in d.get("rejected", ""):
@@ -156,6 +189,24 @@ def run(ctx):
         n_pipe_lines += vlib.unesc(ref[1]).count("\n")
         n_pipe_missing += ref[0] == "panic:missing"
         div = next((st for st in C01.STAGES if (o[st][0], o[st][1]) != (ref[0], ref[1])), None)
+        exp = d.get("expect")
+        if exp is not None:
+            # the output the program prints BY CONSTRUCTION (first-match on the generator's own pattern terms):
+            # judged at every stage, Core included — no model of the compiler, no lowered AST
+            n_exp += 1
+            bad = next((st for st in ["core"] + [x for x in C01.STAGES if x != "core"] if st in o and (o[st][0] != "ok" or vlib.unesc(o[st][1]) != exp)), None)
+            if bad is None:
+                n_exp_ok += 1
+            else:
+                got = vlib.unesc(o[bad][1]).split("\n")
+                want = exp.split("\n")
+                first = next(((x, y) for x, y in zip(got + [""] * len(want), want + [""] * len(got)) if x != y), ("", ""))
+                kind = ("ends-" + o[bad][0].split(":")[0]) if o[bad][0] != "ok" else "wrong-arm-or-bindings-printed"
+                ctx.report({"oracle": "expected-by-construction", "first_divergent_stage": bad, "kind": kind},
+                           f"a match does not select the first arm whose pattern matches: the program prints `{first[0]}` where first-match semantics on the written patterns prints `{first[1]}` (stage {bad})",
+                           {"id": pid, "src": d.get("src"), "site": "", "expected_stdout": exp[:1200],
+                            "first_differing_line": {"printed": first[0], "expected": first[1]},
+                            "outcomes": {k: {"status": v[0], "stdout": vlib.unesc(v[1])[:600]} for k, v in o.items()}})
         if div is None:
             n_pipe_agree += 1
         else:
@@ -189,12 +240,17 @@ def run(ctx):
         "pipeline_programs_run_at_5_stages": n_pipe, "pipeline_programs_all_stages_agree": n_pipe_agree,
         "pipeline_match_results_printed": n_pipe_lines, "pipeline_programs_ending_in_missing": n_pipe_missing,
         "pipeline_programs_rejected(int literal without catch-all)": n_pipe_rej,
+        "bare_identifier_patterns_classified_against_the_rule": n_patclass,
+        "programs_with_output_known_by_construction(patpos)": n_exp, "of_which_every_stage_prints_it": n_exp_ok,
+        "patpos_cells": dict(sorted(patpos_cells.items())),
     }
     ctx.assumptions += [
         "Sem (Model/Sem.lean) is the meaning of Core; `missing` is the builtin that fails at that point",
         "the decision tree is judged at Core level against firstMatch; its ANF/Go lowering is judged by stage-wise agreement with the Core of the same program (Sem / Go.Sem) on the runnable small-matrix programs",
         "values are enumerated from the type definition up to depth 3 with a per-site cap (integers/strings: the literals of the site plus fresh ones)",
         "the source side of the first-match oracle is the pattern AS WRITTEN (real ast::File, struct sub-patterns bound by field name, constructors resolved by name against the value's type) for every site whose function lines up with the surface syntax; other sites (impl methods of programs with derived impls) fall back to the typed pattern",
+        "which bare identifier of a written pattern is a constructor is decided by harness/src/patrule.rs (the identifier is a variant of an enum / the name of a struct declared in the same file; nothing else counts), applied to the parser's syntax node, not by ast/src/lower.rs; a pattern lowered otherwise is reported (oracle pattern-classification)",
+        "stream patpos (harness/src/patpos.rs): 405 programs = constructor spelling (nullary lower/upper case, payload variant) x binder kind putting that spelling in scope x type of the local x pattern position, two functions each (arm bodies using / not using the local); expected output computed on the generator's own pattern and value terms",
         "marker bodies replace the arm bodies (compile_rows does not inspect bodies except for their type annotation)",
     ]
     tb = ["Lean 4 kernel", "axioms: " + ",".join(ctx.proof["axioms"] or ["none"]),
